@@ -201,6 +201,11 @@ impl IncrementalEngine {
                 }
             });
 
+            // Logical time bookkeeping owned by the worker: `frontier` is the time all inputs
+            // have been advanced to, `max_update_time` the latest time an update was applied at.
+            let mut frontier: u64 = 0;
+            let mut max_update_time: u64 = 0;
+
             // Command processing loop: blocking recv + batch drain
             loop {
                 let first_cmd = match command_rx.recv() {
@@ -217,15 +222,35 @@ impl IncrementalEngine {
                     match cmd {
                         EngineCommand::InsertDelta { relation, updates } => {
                             if let Some(session) = input_sessions.get_mut(&relation) {
+                                // A consistent read may already have advanced the inputs past
+                                // `time` (a writer draws its logical time before it applies the
+                                // update, so a concurrent reader can overtake it). Differential
+                                // Dataflow rejects updates behind the input's frontier with a
+                                // panic that kills this worker; such an update is applied at the
+                                // frontier instead - readers only sum diffs, so the arrangement
+                                // still mirrors the base relation.
+                                let at_least = frontier.max(*session.time());
                                 for (data, time, diff) in updates {
-                                    session.update_at(data, time, diff);
+                                    let effective = time.max(at_least);
+                                    max_update_time = max_update_time.max(effective);
+                                    session.update_at(data, effective, diff);
                                 }
                             }
                         }
 
                         EngineCommand::AdvanceTime(time) => {
+                            // Move past every update applied so far (an update may have been
+                            // applied later than the time its writer drew, see above) and never
+                            // move an input backwards: advance_to panics on a smaller time, and
+                            // two readers may send their targets out of order.
+                            let target = time.max(max_update_time + 1);
+                            if target > frontier {
+                                frontier = target;
+                            }
                             for session in input_sessions.values_mut() {
-                                session.advance_to(time);
+                                if *session.time() < frontier {
+                                    session.advance_to(frontier);
+                                }
                                 session.flush();
                             }
                             worker.step();
@@ -235,6 +260,7 @@ impl IncrementalEngine {
                             for session in input_sessions.values_mut() {
                                 session.flush();
                             }
+                            let time = time.max(frontier);
                             while probe.less_than(&time) {
                                 worker.step();
                                 std::thread::yield_now();
@@ -1365,6 +1391,25 @@ mod tests {
         let result = engine.remove_index("no_such_index");
         assert!(result.is_err());
         engine.shutdown().unwrap();
+    }
+
+    #[test]
+    fn test_write_behind_read_frontier_is_applied() {
+        let engine = IncrementalEngine::new(vec![]).unwrap();
+        engine
+            .insert("r", vec![Tuple::from_pair(1, 1)], 6)
+            .unwrap();
+        assert_eq!(engine.read_relation_consistent("r").unwrap().len(), 1);
+        // a writer that drew its logical time before the read applies it afterwards
+        engine
+            .insert("r", vec![Tuple::from_pair(2, 2)], 5)
+            .unwrap();
+        let mut got = engine.read_relation_consistent("r").unwrap();
+        got.sort();
+        assert_eq!(got, vec![Tuple::from_pair(1, 1), Tuple::from_pair(2, 2)]);
+        // advancing to an older time is ignored instead of killing the worker
+        engine.advance_time(3).unwrap();
+        assert_eq!(engine.read_relation_consistent("r").unwrap().len(), 2);
     }
 
     #[test]
